@@ -50,6 +50,38 @@ Flatten(qs) == IF qs = <<>> THEN <<>> ELSE Head(qs) \o Flatten(Tail(qs))
 F(name, holds) == IF holds THEN {} ELSE {name}
 E(name, cond) == IF cond THEN {name} ELSE {}
 
+(* DECLARED attributes come from the environment, OUTCOMES from the observation. *)
+(* For L1 traces the trace spec evolves its own copy `aux.decl` of the state by  *)
+(* the model's event functions; everything the environment declares (demand,    *)
+(* priority, affinity and limits, allocation/partition, group, lease, retention, *)
+(* schedule-once, blacklisting, traits; server capacity, partition, traits,     *)
+(* reboot date, state and its time; group counts) is read from that copy when a *)
+(* property clause is evaluated, so a change that corrupts such a field of the  *)
+(* objects under test together with the behaviour cannot hide behind it. What   *)
+(* the scheduler decides (server, identity, expiry, free capacity, counters,    *)
+(* available identities) is always taken from the recorded state.               *)
+OvApp(d, o) == [o EXCEPT !.demand = d.demand, !.prio = d.prio, !.aff = d.aff, !.limits = d.limits,
+                         !.alloc = d.alloc, !.label = d.label, !.group = d.group, !.lease = d.lease,
+                         !.retention = d.retention, !.once = d.once, !.blacklisted = d.blacklisted,
+                         !.traits = d.traits, !.own = d.own]
+OvSrv(d, o) == [o EXCEPT !.cap = d.cap, !.label = d.label, !.traits = d.traits, !.vu = d.vu,
+                         !.parent = d.parent, !.state = d.state, !.since = d.since]
+Overlay(dc, x) ==
+  IF ~dc.on THEN x
+  ELSE [x EXCEPT
+    !.apps = [a \in DOMAIN x.apps |->
+                IF a \in DOMAIN dc.st.apps THEN OvApp(dc.st.apps[a], x.apps[a]) ELSE x.apps[a]],
+    !.servers = [s \in DOMAIN x.servers |->
+                IF s \in DOMAIN dc.st.servers THEN OvSrv(dc.st.servers[s], x.servers[s])
+                ELSE x.servers[s]],
+    !.groups = [g \in DOMAIN x.groups |->
+                IF g \in DOMAIN dc.st.groups THEN [x.groups[g] EXCEPT !.count = dc.st.groups[g].count]
+                ELSE x.groups[g]]]
+
+DeclNext(dc, pre, line, scn) ==
+  IF ~dc.on \/ "exc" \in DOMAIN line \/ line.ev \in {"Cycle", "ProbeCycle", "L2", "Init"} THEN dc
+  ELSE [dc EXCEPT !.st = EnvDo(Overlay(dc, pre), line.ev, line.args, CanonScn(scn))]
+
 (* the observer's own record: when each server went down (aux.down) and which *)
 (* allocation the environment last assigned each instance to (aux.alloc)      *)
 DownOf(s0) == [s \in {x \in SrvNames(s0) : s0.servers[x].state = "down"} |-> s0.servers[s].since]
@@ -124,6 +156,7 @@ ObsLease(st0, ls) ==
 
 AuxNext(a, pre, line, post, scn) ==
   [down |-> DownNext(a.down, pre, line, post),
+   decl |-> DeclNext(a.decl, pre, line, scn),
    lease |-> IF line.ev \in {"Submit", "RemoveApp"}
              THEN LeaseNext(a.lease, line, CanonScn(scn)) ELSE a.lease,
    marks |-> MarkNext(a.marks, pre, line),
@@ -149,9 +182,11 @@ ObsMarks(pre, mk, kind) ==
           [pre.apps[n] EXCEPT !.unschedule =
              (n \in DOMAIN mk /\ mk[n] # NoServer /\ mk[n] = pre.apps[n].server)]]]
 
-CycleFail(pre, line, post) ==
+CycleFail(rawpre, line, rawpost) ==
   LET q == Flatten(line.queues)
-      pl == line.placement IN
+      pl == line.placement
+      pre == Overlay(aux.decl, rawpre)
+      post == Overlay(aux.decl, rawpost) IN
   F("C01.cap", C01cap(post)) \cup F("C01.free", C01free(post))
   \cup F("C01.single", C01single(post)) \cup F("C01.views", C01views(post))
   \cup F("C03.post", C03post(post)) \cup F("C03.assign", C03assign(ObsLease(post, aux.lease), pl))
@@ -180,7 +215,8 @@ CycleFail(pre, line, post) ==
         \cup F("C06.zeroLast", \A k \in DOMAIN line.queues : C06zeroLast(op, line.queues[k]))
         \cup F("C06.boost", \A k \in DOMAIN line.queues : C06boost(op, line.queues[k]))
         \cup F("C06.cap", \A k \in DOMAIN line.queues : C06cap(op, line.queues[k], post)))
-  \cup F("drift.cycle", CycleExplained(pre, line.queues, post))
+  \cup F("drift.cycle", CycleExplained(rawpre, line.queues, rawpost))
+  \cup F("drift.declared", pre = rawpre /\ post = rawpost)
   \cup F("C02.prune", C02prune(post))
   \cup (IF line.ev = "ProbeCycle" /\ line.quiet
         THEN F("C02.probe", C02probe(pre, post, q, line.probe)) ELSE {})
@@ -222,7 +258,8 @@ Init == /\ t \in DOMAIN Traces
         /\ i = 1
         /\ st = Canon(Traces[t].lines[1].post)
         /\ aux = [down |-> DownOf(Canon(Traces[t].lines[1].post)), alloc |-> EmptyFn,
-                  prio |-> EmptyFn, marks |-> EmptyFn, lease |-> EmptyFn]
+                  prio |-> EmptyFn, marks |-> EmptyFn, lease |-> EmptyFn,
+                  decl |-> [on |-> Traces[t].kind = "l1", st |-> Canon(Traces[t].lines[1].post)]]
 
 Next == /\ i < Len(Traces[t].lines)
         /\ i' = i + 1
